@@ -9,6 +9,9 @@
 (*   HiddenOnly    (C02)  every extra entry is a hidden file next to a dest      *)
 (*   Publishes     (C03)  success => dest complete, mode kept, inputs untouched  *)
 (*   NoEscape      (C05)  every creation happens directly inside the out dir     *)
+(*   NeverTorn     (C07)  whatever a power loss can leave at a font name is fully *)
+(*                        fsynced data; DurableOnOk: success => data and entry    *)
+(*                        flushed                                                 *)
 (* Many traces are concatenated; a "begin" line resets the model.                *)
 EXTENDS Integers, Sequences, FiniteSets, TLC, Json
 
@@ -26,8 +29,11 @@ VARIABLES l,       \* next trace line
           hist,    \* [protected path -> set of observations ("ABSENT" | "PARTIAL" | <<o, n>>)]
           created, \* set of paths created during the trace (for NoEscape / HiddenOnly)
           visible, \* created paths whose base name does not start with "."
-          bad      \* "" or a description of a failed binding check (model vs real result)
-vars == <<l, ns, dirs, par, ino, fds, nino, ns0, dirs0, ino0, hdr, hist, created, visible, bad>>
+          bad,     \* "" or a description of a failed binding check (model vs real result)
+          dfd,     \* [handle -> directory path]  open directory handles (SyncDirectory = open dir, fsync, close)
+          pend     \* [path -> set of inode ids (0 = absent)] values the path had since its directory was last fsynced
+                   \* (durability layer, C07: after a power loss the path may hold any of them, or its current value)
+vars == <<l, ns, dirs, par, ino, fds, nino, ns0, dirs0, ino0, hdr, hist, created, visible, bad, dfd, pend>>
 
 Dom(f) == DOMAIN f
 Put(f, k, v) == [x \in Dom(f) \cup {k} |-> IF x = k THEN v ELSE f[x]]
@@ -42,6 +48,7 @@ RECURSIVE Under(_, _)
 Under(p, d) == IF p = d THEN TRUE ELSE IF p \notin Dom(par) THEN FALSE ELSE IF par[p] = p THEN FALSE ELSE Under(par[p], d)
 
 Content(i) == <<ino[i].o, ino[i].hd, ino[i].n>>
+Val(nsx, p) == IF p \in Dom(nsx) THEN nsx[p] ELSE 0
 Prot == IF hdr = <<>> THEN {} ELSE SeqToSet(hdr.prot)
 Obs(nsx, inox, p) == IF p \notin Dom(nsx) THEN <<"ABSENT", 0, 0>> ELSE <<inox[nsx[p]].o, inox[nsx[p]].hd, inox[nsx[p]].n>>
 Observe(nsx, inox, h) == [p \in Dom(h) |-> h[p] \cup {Obs(nsx, inox, p)}]
@@ -53,7 +60,7 @@ InitNs(ents) == LET files == {i \in 1..Len(ents) : ents[i].k # "d"} IN
 InitIno(ents) == LET files == {i \in 1..Len(ents) : ents[i].k # "d"}
                      ids == {ents[i].i : i \in files} IN
                  [id \in ids |-> LET i == CHOOSE j \in files : ents[j].i = id IN
-                                 [k |-> ents[i].k, o |-> ents[i].c, hd |-> 0, n |-> 0, m |-> ents[i].m, tg |-> ents[i].tg]]
+                                 [k |-> ents[i].k, o |-> ents[i].c, hd |-> 0, n |-> 0, sn |-> 0, m |-> ents[i].m, tg |-> ents[i].tg]]
 InitDirs(ents) == {ents[i].p : i \in {j \in 1..Len(ents) : ents[j].k = "d"}}
 InitPar(ents) == [p \in {ents[i].p : i \in 1..Len(ents)} |-> ents[CHOOSE i \in 1..Len(ents) : ents[i].p = p].par]
 
@@ -61,7 +68,7 @@ DoBegin(e) ==
   /\ ns' = InitNs(e.init) /\ ino' = InitIno(e.init) /\ dirs' = InitDirs(e.init) \cup {"."}
   /\ par' = InitPar(e.init)
   /\ ns0' = ns' /\ ino0' = ino' /\ dirs0' = dirs'
-  /\ fds' = <<>> /\ nino' = 1000 /\ hdr' = e /\ created' = {} /\ visible' = {} /\ bad' = ""
+  /\ fds' = <<>> /\ nino' = 1000 /\ hdr' = e /\ created' = {} /\ visible' = {} /\ bad' = "" /\ dfd' = <<>> /\ pend' = <<>>
   /\ hist' = [p \in SeqToSet(e.prot) |-> {Obs(ns', ino', p)}]
 
 ----------------------------------------------------------------------------
@@ -93,11 +100,11 @@ Apply(e) ==
             /\ fds' = Put(fds, e.h, 0) /\ UNCHANGED <<ns, ino, nino, dirs, par, created>>
          ELSE IF p \in Dom(ns) THEN
             /\ fds' = Put(fds, e.h, ns[p])
-            /\ ino' = IF e.trunc THEN [ino EXCEPT ![ns[p]].o = "h", ![ns[p]].hd = e.h, ![ns[p]].n = 0] ELSE ino
+            /\ ino' = IF e.trunc THEN [ino EXCEPT ![ns[p]].o = "h", ![ns[p]].hd = e.h, ![ns[p]].n = 0, ![ns[p]].sn = 0] ELSE ino
             /\ UNCHANGED <<ns, nino, dirs, par, created>>
          ELSE
             /\ ns' = Put(ns, p, nino) /\ par' = Put(par, p, e.ad)
-            /\ ino' = Put(ino, nino, [k |-> "f", o |-> "h", hd |-> e.h, n |-> 0, m |-> -1, tg |-> ""])
+            /\ ino' = Put(ino, nino, [k |-> "f", o |-> "h", hd |-> e.h, n |-> 0, sn |-> 0, m |-> -1, tg |-> ""])
             /\ fds' = Put(fds, e.h, nino) /\ nino' = nino + 1 /\ created' = created \cup {p}
             /\ UNCHANGED dirs
     [] e.op \in {"write", "writeat", "readfrom"} ->
@@ -111,6 +118,8 @@ Apply(e) ==
     [] e.op = "truncate" ->
          /\ IF Resolve(e.a) \in Dom(ns) THEN ino' = [ino EXCEPT ![ns[Resolve(e.a)]].o = "mod"] ELSE UNCHANGED ino
          /\ UNCHANGED <<ns, fds, nino, dirs, par, created>>
+    [] e.op = "fsync" -> /\ IF e.h \in Dom(fds) /\ fds[e.h] # 0 THEN ino' = [ino EXCEPT ![fds[e.h]].sn = ino[fds[e.h]].n] ELSE UNCHANGED ino
+                         /\ UNCHANGED <<ns, fds, nino, dirs, par, created>>
     [] e.op = "close" -> /\ fds' = IF e.h \in Dom(fds) THEN Del(fds, e.h) ELSE fds
                          /\ UNCHANGED <<ns, ino, nino, dirs, par, created>>
     [] e.op = "fchmod" -> /\ IF e.h \in Dom(fds) /\ fds[e.h] # 0 THEN ino' = [ino EXCEPT ![fds[e.h]].m = e.n] ELSE UNCHANGED ino
@@ -166,6 +175,13 @@ DoCall(e) ==
                 ELSE v1
   /\ hist' = LET h1 == Observe(ns', ino', hist) IN
              IF TornWrite(e) THEN [p \in Dom(h1) |-> IF p \in Dom(ns) /\ ns[p] = fds[e.h] THEN h1[p] \cup {<<"PARTIAL", 0, 0>>} ELSE h1[p]] ELSE h1
+  /\ dfd' = IF e.op = "openfile" /\ e.r = "ok" /\ (IF e.excl THEN e.a ELSE Resolve(e.a)) \in dirs THEN Put(dfd, e.h, e.a)
+             ELSE IF e.op = "close" /\ e.h \in Dom(dfd) THEN Del(dfd, e.h) ELSE dfd
+  /\ pend' = LET changed == {p \in Dom(ns) \cup Dom(ns') : Val(ns, p) # Val(ns', p)}
+                  p1 == [p \in Dom(pend) \cup changed |-> (IF p \in Dom(pend) THEN pend[p] ELSE {}) \cup (IF p \in changed THEN {Val(ns, p)} ELSE {})]
+              IN IF e.op = "fsync" /\ e.r = "ok" /\ e.h \in Dom(dfd)
+                   THEN [p \in {q \in Dom(p1) : ~(q \in Dom(par') /\ par'[q] = dfd[e.h])} |-> p1[p]]
+                   ELSE p1
   /\ UNCHANGED <<ns0, dirs0, ino0, hdr>>
 
 Step ==
@@ -174,10 +190,10 @@ Step ==
   /\ LET e == Trace[l] IN
      CASE e.ev = "begin" -> DoBegin(e)
        [] e.ev = "call"  -> DoCall(e)
-       [] OTHER          -> UNCHANGED <<ns, dirs, par, ino, fds, nino, ns0, dirs0, ino0, hdr, hist, created, visible, bad>>
+       [] OTHER          -> UNCHANGED <<ns, dirs, par, ino, fds, nino, ns0, dirs0, ino0, hdr, hist, created, visible, bad, dfd, pend>>
 
 Init == /\ l = 1 /\ ns = <<>> /\ dirs = {} /\ par = <<>> /\ ino = <<>> /\ fds = <<>> /\ nino = 1000
-        /\ ns0 = <<>> /\ dirs0 = {} /\ ino0 = <<>> /\ hdr = <<>> /\ hist = <<>> /\ created = {} /\ visible = {} /\ bad = ""
+        /\ ns0 = <<>> /\ dirs0 = {} /\ ino0 = <<>> /\ hdr = <<>> /\ hist = <<>> /\ created = {} /\ visible = {} /\ bad = "" /\ dfd = <<>> /\ pend = <<>>
 Spec == Init /\ [][Step]_vars
 
 ----------------------------------------------------------------------------
@@ -250,6 +266,18 @@ Publishes ==
 NoEscape ==
   hdr # <<>> /\ (\E i \in 1..Len(hdr.judge) : hdr.judge[i] = "c05") =>
     \A p \in created : par[p] \in SeqToSet(hdr.destdirs)
+
+(* C07: durability. A regular, non-hidden name directly inside a destination directory is a "font name". *)
+JudgeNow(j) == hdr # <<>> /\ \E i \in 1..Len(hdr.judge) : hdr.judge[i] = j
+Synced(i) == ino[i].sn = ino[i].n
+FontNames == {p \in (visible \cup Dom(ns0)) : p \in Dom(par) /\ par[p] \in SeqToSet(hdr.destdirs)}
+MayBeAt(p) == (IF p \in Dom(pend) THEN pend[p] ELSE {}) \cup {Val(ns, p)}
+NeverTorn ==
+  JudgeNow("c07") => \A p \in FontNames : \A i \in MayBeAt(p) \ {0} : Synced(i)
+DurableOnOk ==
+  Judge("c07") /\ End.outcome = "ok" =>
+    \A p \in Outs : /\ p \in Dom(ns) /\ Synced(ns[p])
+                     /\ (p \notin Dom(pend) \/ pend[p] = {})
 
 TraceAccepted == TLCGet("stats").diameter = Len(Trace) + 1
 =============================================================================
